@@ -384,7 +384,7 @@ func runC28(c *Ctx) {
 		}
 		return false
 	}
-	leads := w.wrapMay(w.calleeFn(clientUnsub), 3)
+	leads := w.wrapMay(w.calleeFn(clientUnsub), 6)
 	nSites := 0
 	for f := range reach {
 		if expands(f) {
@@ -411,6 +411,13 @@ func runC28(c *Ctx) {
 				if nonEmpty(g) || isEmpty(g) {
 					continue
 				}
+				// an error check of an earlier call that merely received the channel (pubUnsubscribe(…, ch, …)
+				// returned an error) is not a test of the channel
+				if b, ok := g.Cond.(*ssa.BinOp); ok && (isNilConst(b.Y) || isNilConst(b.X)) {
+					if types.Identical(b.X.Type(), types.Universe.Lookup("error").Type()) || types.Identical(b.Y.Type(), types.Universe.Lookup("error").Type()) {
+						continue
+					}
+				}
 				gd := D(g.Cond)
 				for _, cv := range chVals {
 					d := strings.TrimLeft(D(cv), "&*")
@@ -425,6 +432,27 @@ func runC28(c *Ctx) {
 						c.Check("C28.R2", in, "the way to the all-channels expansion does not filter by the channel argument", false,
 							"guard "+g.String()+" tests the channel name before the empty-means-all expansion: for an empty channel it is false for every connection, nothing is unsubscribed and no error is returned")
 						return
+					}
+				}
+				// the channel may also be a field of a decoded message (control path): the value passed in
+				// the callee's channel parameter position
+				if ci := asCall(in); ci != nil {
+					if cal := w.Callee(ci); cal != nil {
+						off := 0
+						if cal.Signature.Recv() != nil {
+							off = 0 // Params includes the receiver, as do Args
+						}
+						for i, p := range cal.Params {
+							if i+off >= len(ci.Common().Args) || !isChannelName(p.Name()) {
+								continue
+							}
+							d := D(ci.Common().Args[i+off])
+							if len(d) > 3 && strings.Contains(gd, d) {
+								c.Check("C28.R2", in, "the way to the all-channels expansion does not filter by the channel argument", false,
+									"guard "+g.String()+" tests the channel value ("+d+") before the empty-means-all expansion: for an empty channel the test fails on every node, the request is dropped and no error is returned")
+								return
+							}
+						}
 					}
 				}
 			}
